@@ -380,7 +380,17 @@ pub fn search(alpha: &[(&'static str, Call)], depth: usize, srcs: &[SrcInfo], st
     for d in 0..depth {
         let found: Mutex<Vec<(u64, u64, u64)>> = Mutex::new(vec![]); // (fp, parent idx, op)
         let lvl = &level;
-        let s = par_for(lvl.len() as u64 * nops, 8, |t, st| {
+        // for the hang watchdog: the history an item stands for
+        let describe = |t: u64| -> Option<Value> {
+            let (pi, k) = ((t / nops) as usize, (t % nops) as usize);
+            let st = lvl.get(pi)?;
+            let mut hist: Vec<Call> = st.hist.iter().map(|&i| alpha[i as usize].1.clone()).collect();
+            let mut names: Vec<&str> = st.hist.iter().map(|&i| alpha[i as usize].0).collect();
+            hist.push(alpha[k].1.clone());
+            names.push(alpha[k].0);
+            Some(case_json(&hist, &names))
+        };
+        let s = crate::util::par_for_desc(lvl.len() as u64 * nops, 8, &describe, |t, st| {
             let (pi, k) = ((t / nops) as usize, (t % nops) as usize);
             let mut hist: Vec<Call> = lvl[pi].hist.iter().map(|&i| alpha[i as usize].1.clone()).collect();
             let mut names: Vec<&str> = lvl[pi].hist.iter().map(|&i| alpha[i as usize].0).collect();
@@ -446,6 +456,8 @@ pub fn run(args: &Args) -> i32 {
         return crate::props::replay_file(ctx, path, |c, st| replay(c, st, seed));
     }
     let thorough = args.tier.thorough();
+    // one history takes microseconds: a case that runs for seconds is a call that does not return
+    crate::util::set_hang_budget_secs(15);
     let srcs = sources(seed);
     let mut full = alphabet(false);
     if !thorough {
